@@ -73,7 +73,7 @@ PROPS["C05"] = dict(
     text="In-process: every decoder (HTTP, SOCKS4/5, SOCKS-UDP, RPFM buffer and stream frames, fragment reassembly incl. the exhaustive (total,seq,len) header grid and hostile MTUs, h11c_connect against hostile upstream replies, h11c_handshake against hostile requests) is run on mutated-valid, truncated, oversized and random inputs under catch_unwind with a poll budget; any panic is a violation because the shipped profile aborts. End-to-end: hostile clients and upstreams against the shipped binary under a supervisor (see e2e steps).",
     note="trusted: mutation operators reach the interesting inputs only by sampling; memory exhaustion is out of scope of the property",
     design_ref="DESIGN.md 3 C05",
-    steps=[inproc("c05")],
+    steps=[inproc("c05"), e2e("c05", thorough_lanes=["asan"], timeout=(400, 3000))],
     assumptions=COMMON_ASSUME,
 )
 
@@ -135,7 +135,7 @@ PROPS["C15"] = dict(
     text="In-process: one task replaces the 14-rule list through the real set_rules at full speed, mixing in invalid lists (syntax error, type error, unknown field, unknown target at a random position), while 16 tasks run the real process_request on the multi-thread runtime; every decision must equal the decision of a version that was current during the request's interval (last completed before it began, or overlapping it). Sequentially, every rejected replacement must leave GET /rules and the next decision unchanged, a successful one must decide the very next request, and read-then-post must change nothing. End-to-end: the same through POST /api/rules on the shipped binary.",
     note="trusted: monotonic clock ordering of call/return stamps; version decisions repeat every 8 versions",
     design_ref="DESIGN.md 3 C15",
-    steps=[inproc("c15")],
+    steps=[inproc("c15"), e2e("c15")],
     assumptions=COMMON_ASSUME,
 )
 
